@@ -652,6 +652,8 @@ class Equiv1Macro(Macro):
     
     def eval(self, args, prevs):
         pt = prevs[0]
+        if not pt.prop.is_equals() or len(args) != 2:
+            raise VeriTException("equiv2", "premise must be an equivalence")
         p1, p2 = pt.prop.args
         if p1 == args[0] and Not(p2) == args[1]:
             return Thm(Or(*args), pt.hyps)
